@@ -126,7 +126,13 @@ def curvy_path(rng, W, H):
             elif c < 0.75:
                 ops.append("Q %s %s" % (fpt(*P()), fpt(*P())))
             else:
-                ops.append("C %s %s %s K 0" % (fpt(*P()), fpt(*P()), fpt(*P())))
+                a, b, e = P(), P(), P()
+                d = rng.random()
+                if d < 0.05:
+                    b = a                    # coincident control points
+                elif d < 0.08:
+                    b = e
+                ops.append("C %s %s %s K 0" % (fpt(*a), fpt(*b), fpt(*e)))
         if rng.random() < 0.5:
             ops.append("Z")
             if rng.random() < 0.3:
